@@ -217,9 +217,13 @@ def coq_eval_strings(imports, run_fn, case_terms, shard=400, timeout=900, defs="
 
 # --------------------------------------------------------------------------- implementation side
 
-def impl(script, payload, timeout=1800, env=None, args=()):
-    """Run harness/<script> in a fresh interpreter against /repo; JSON in, JSON out."""
-    p = subprocess.run([PY, os.path.join(VERIF, "harness", script)] + list(args), input=json.dumps(payload),
+def impl(script, payload, timeout=1800, env=None, args=(), bg=False):
+    """Run harness/<script> in a fresh interpreter against /repo; JSON in, JSON out.
+    bg=True: through harness/bgrun.py, i.e. while two other threads of the worker process sit parked inside jaxtyping (one in a
+    context with bindings in the leaf loop of a structured PyTree check, one in the flatten phase): per-thread state must make
+    no difference to the worker's results."""
+    cmd = [PY, os.path.join(VERIF, "harness", "bgrun.py"), os.path.join(VERIF, "harness", script)] if bg else [PY, os.path.join(VERIF, "harness", script)]
+    p = subprocess.run(cmd + list(args), input=json.dumps(payload),
                        capture_output=True, text=True, timeout=timeout, env=impl_env(env), cwd=tempfile.gettempdir())
     if p.returncode != 0:
         raise ImplCrash(script, p.returncode, p.stdout[-2000:], p.stderr[-6000:])
